@@ -232,10 +232,19 @@ Proof. intros; unfold gmeas; destruct (b_isUnusedG b); cbn; lia. Qed.
 Lemma wmeas_bound : forall n b, 0 <= b_wpos b -> 0 <= n -> wmeas n b <= n + 2.
 Proof. intros; unfold wmeas; destruct (b_isUnusedW b); cbn; lia. Qed.
 
-Lemma inner_light : forall n fuel w lc, 0 <= n -> LP n w -> gmeas n (w_br w) < Z.of_nat fuel ->
-  match inner_loop fuel w lc with Ok (w', _) => gc_pos (w_st w') = true | OutOfFuel => False | _ => True end.
+Lemma fallback_light : forall w wopt lc, gc_pos (w_st w) = true -> 0 <= w_saved w ->
+  match word_fallback w wopt lc with Ok (w', _) => gc_pos (w_st w') = true | OutOfFuel => False | _ => True end.
 Proof.
-  intros n. induction fuel as [|fuel IH]; intros w lc Hn0 (Hn & Hw & Hg & Ha & Hs & Hi & HG) HF; [pose proof (gmeas_nonneg n (w_br w)); lia|].
+  intros w wopt lc HG Hs. unfold word_fallback. destruct (negb (lc_truncating lc) && negb (has_best w)); [|exact HG].
+  pose proof (pbo_light (restore w) wopt lc ltac:(destruct w; exact HG) ltac:(destruct w; exact Hs)) as PL.
+  destruct (process_break_option (restore w) wopt lc) as [[[w3 r] cand]| | |]; cbn [bind]; auto.
+  destruct PL as (L1 & _). destruct r; destruct w3; exact L1.
+Qed.
+
+Lemma inner_light : forall n fuel w wopt lc, 0 <= n -> LP n w -> gmeas n (w_br w) < Z.of_nat fuel ->
+  match inner_loop fuel w wopt lc with Ok (w', _) => gc_pos (w_st w') = true | OutOfFuel => False | _ => True end.
+Proof.
+  intros n. induction fuel as [|fuel IH]; intros w wopt lc Hn0 (Hn & Hw & Hg & Ha & Hs & Hi & HG) HF; [pose proof (gmeas_nonneg n (w_br w)); lia|].
   cbn [inner_loop].
   replace (w_br (checkpoint w)) with (w_br w) by (destruct w; reflexivity).
   assert (BF : Z.of_nat (br_fuel (checkpoint w)) = n + 3).
@@ -243,7 +252,7 @@ Proof.
   pose proof (ngb_light n (br_fuel (checkpoint w)) (w_br w) Hn Hw Hg ltac:(pose proof (gmeas_bound n (w_br w) Hg Hn0); lia)) as NL.
   destruct (next_grapheme_break _ (w_br w)) as [[b1 ro]| | |]; cbn [bind fst snd]; auto.
   destruct NL as ((N1 & N2 & N3 & N4) & N5).
-  destruct ro as [opt|]; [|destruct w; exact HG].
+  destruct ro as [opt|]; [|apply fallback_light; destruct w; cbn; auto].
   set (w2 := set_br (checkpoint w) b1).
   assert (P2 : gc_pos (w_st w2) = true /\ 0 <= w_idx w2 /\ w_br w2 = b1 /\ w_saved w2 = w_idx w) by (destruct w; cbn; auto).
   destruct P2 as (P21 & P22 & P23 & P24).
@@ -280,7 +289,7 @@ Proof.
   assert (Ha1 : zlen (b_attrs b1) = n + 1) by (rewrite N4; exact Ha).
   (* entering the grapheme loop *)
   assert (G : forall wx, gc_pos (w_st wx) = true -> 0 <= w_saved wx -> (w_br wx = b1 \/ w_br wx = mark_word_unused b1) ->
-              match inner_loop (br_fuel wx) (restore wx) lc with Ok (w', _) => gc_pos (w_st w') = true | OutOfFuel => False | _ => True end).
+              match inner_loop (br_fuel wx) (restore wx) opt lc with Ok (w', _) => gc_pos (w_st w') = true | OutOfFuel => False | _ => True end).
   { intros wx X1 X2 X3. apply (inner_light n); [exact Hn0| |].
     - eapply (LP_intro n _ (w_br wx) (w_st wx) (w_saved wx) (w_saved wx)); auto; try (destruct wx; reflexivity);
         destruct X3 as [-> | ->]; cbn; auto.
@@ -288,8 +297,8 @@ Proof.
       assert (Z.of_nat (br_fuel wx) = n + 3) by (unfold br_fuel; destruct X3 as [-> | ->]; cbn; unfold zlen in Ha1; lia).
       assert (gmeas n (w_br wx) <= n + 2) by (apply gmeas_bound; auto; destruct X3 as [-> | ->]; cbn; auto). lia. }
   destruct r.
-  - apply IH; [exact Hn0| |destruct w3; cbn in *; subst; lia].
-    eapply (LP_intro n _ b1 (w_st w3) (w_saved w3) (w_saved w3)); auto; try lia; destruct w3; cbn in *; auto.
+  - cbv zeta. apply IH; [exact Hn0| |destruct w3; cbn in *; subst; unfold wmeas in *; cbn in *; lia].
+    eapply (LP_intro n _ (discard_word b1) (w_st w3) (w_saved w3) (w_saved w3)); cbn; auto; try lia; destruct w3; cbn in *; subst; auto.
   - destruct w3; exact L1.
   - assert (X : gc_pos (w_st (if has_best w3 then w3 else mark_best (restore w3) [])) = true /\ w_saved (if has_best w3 then w3 else mark_best (restore w3) []) = w_saved w3
                 /\ w_br (if has_best w3 then w3 else mark_best (restore w3) []) = b1) by (destruct (has_best w3); destruct w3; cbn in *; auto).
